@@ -346,6 +346,52 @@ fn layout_part<'a>(tier: Tier, sys: &'a SysA<'a>) -> Part<'a, SysA<'a>> {
     }
 }
 
+/// layouts on screens wide enough for the dump's run-length and blank-skipping encodings
+/// (REP break-even, runs that reach one or two default tab stops): soft-wrapped rows above
+/// coloured bars, text after long blank stretches, on either screen, with default, cleared
+/// and hand-set tab stops
+pub fn a_wide_layout(cfg: &Cfg) -> Vec<Op> {
+    let cols = cfg.cols as u32;
+    let over: String = "abcdefghijklmnopqrstuvwxyz".chars().cycle().take(cfg.cols + 1).collect();
+    vec![
+        Op::text(&over),
+        t("ab"),
+        c(crlf()),
+        c(sgr1(44)),
+        c(sgr1(0)),
+        c(El(Some(2))),
+        c(El(None)),
+        c(Cup(Some(2), Some(1))),
+        c(Cup(Some(2), Some(cols - 1))),
+        c(Cha(Some(cols - 3))),
+        c(Tbc(Some(3))),
+        c(Seq(vec![Cha(Some(4)), Hts])),
+        c(DecSet(vec![1047])),
+        c(DecRst(vec![1047])),
+        c(Ht),
+    ]
+}
+
+fn conts_wide_layout(cfg: &Cfg) -> Vec<String> {
+    a_wide_layout(cfg).into_iter().map(|o| o.text).collect()
+}
+
+fn wide_layout_part<'a>(tier: Tier, sys: &'a SysA<'a>) -> Part<'a, SysA<'a>> {
+    Part {
+        name: "wide-screen-layouts",
+        sys,
+        cfgs: match tier {
+            Tier::Quick => cfgs(&[(7, 3), (20, 2)], &[None]),
+            Tier::Thorough => cfgs(&[(7, 3), (20, 2), (26, 3), (10, 4)], &[None]),
+        },
+        alphabet: &a_wide_layout,
+        depth: tier.pick(4, 5),
+        seconds: tier.pick(20.0, 2400.0),
+        validated: true,
+        nontrivial: Some("states_round_tripped"),
+    }
+}
+
 fn conts_full(cfg: &Cfg) -> Vec<String> {
     a_11(cfg).into_iter().filter(|o| !o.is_resize()).map(|o| o.text).collect()
 }
@@ -589,6 +635,8 @@ pub fn run(ctx: &Ctx) -> Report {
     run_part(ctx, &mut rep, &deep);
     let sc = SysA { sys: make(&ctx.known), conts: &conts_layout };
     run_part(ctx, &mut rep, &layout_part(ctx.tier, &sc));
+    let sw = SysA { sys: make(&ctx.known), conts: &conts_wide_layout };
+    run_part(ctx, &mut rep, &wide_layout_part(ctx.tier, &sw));
     let hits: Vec<(String, u64, String)> = rep.known_hits.iter().map(|(k, (n, w))| (k.clone(), *n, w.clone())).collect();
     rep.known_hits.clear();
     for (id, n, w) in hits {
@@ -640,6 +688,10 @@ pub fn replay(ctx: &Ctx, v: &Value) -> bool {
         "sparse-tall-screen" => {
             let sc = SysA { sys: make(&ctx.known), conts: &conts_layout };
             replay_part(ctx, &layout_part(tier, &sc), v)
+        }
+        "wide-screen-layouts" => {
+            let sw = SysA { sys: make(&ctx.known), conts: &conts_wide_layout };
+            replay_part(ctx, &wide_layout_part(tier, &sw), v)
         }
         "full-alphabet" => replay_part(ctx, &full, v),
         _ => replay_part(ctx, &deep, v),
